@@ -355,3 +355,81 @@ def r04_6(ctx, run, rule='R04.6'):
                         run.undecided(rule, fn, 'element-result', f'the value returned from inside the element loop ({show(inner)[:80]}) was not recognised as the element comparison result tested on '
                                       'this path: not decided', f'{b.file}:{b.line}')
         run.floor(rule, f'tie-break returns in {fn.split("::")[-1]}', tb, 1)
+
+
+# ------------------------------------------------------------------ R04.8 each side's cursor is moved by that side's own entries
+
+def r04_8(ctx, run, rule='R04.8'):
+    """In the symmetric walkers compare_array / compare_object (parameters = left half, right half) a value that belongs to one operand —
+    an offset variable, a cursor struct — is updated only with quantities of the same operand: `right_offset += left_entry.length`, or
+    `right_cursor.advance(&left_entry)`, reads the right document at offsets measured on the left one.  Decided by parameter provenance
+    computed *without* the update under test (a flow-insensitive provenance would let the update itself mix the sides)."""
+    f = ctx.facts
+    n = 0
+    for fn in ('functions::compare_array', 'functions::compare_object'):
+        b = f.one(fn)
+        if b is None:
+            run.undecided(rule, fn, 'side-hygiene', 'function not found (anchor lost)')
+            continue
+        if b.argc % 2:
+            run.undecided(rule, fn, 'side-hygiene', 'the function no longer takes a left half and a right half of parameters: sides are not defined', f'{b.file}:{b.line}')
+            continue
+        half = b.argc // 2
+        edges, mutref = prov.prov(b, skip='edges')
+
+        def side_of(P, locs):
+            s_ = set()
+            for l in locs:
+                s_ |= P.get(l, set())
+            hl = any(a <= half for a in s_)
+            hr = any(a > half for a in s_)
+            return 'LR' if hl and hr else 'L' if hl else 'R' if hr else None
+        bad = []
+        for i, e in enumerate(edges):
+            if e[0] == 'mut':
+                # a call that receives `&mut X` (or a method on it) together with other arguments: X may be updated from them
+                x, others = e[1], e[2]
+            elif e[0] == '*':
+                continue
+            else:
+                dst, src = e
+                if b.name_of(dst) is None:
+                    continue          # a compiler temporary: judged where it reaches a named value
+                # look through the temporaries of `x += y` / `x = x + y` (checked add, tuple field, cast)
+                full = set(src)
+                for _ in range(4):
+                    more = set()
+                    for t_ in list(full):
+                        if b.name_of(t_) is None and t_ > b.argc:
+                            for e2 in edges:
+                                if e2[0] not in ('mut', '*') and e2[0] == t_:
+                                    more |= e2[1]
+                    if more <= full:
+                        break
+                    full |= more
+                if dst not in full:
+                    continue          # not an update of a value by itself and something else
+                others = {t_ for t_ in full if t_ != dst and (b.name_of(t_) is not None or t_ <= b.argc)}
+                if not others:
+                    continue
+                x = dst
+            if not others:
+                continue
+            P = prov.prov(b, skip=i)
+            targets = mutref.get(x) or {x}
+            sx = side_of(P, targets)
+            so = side_of(P, others)
+            if sx in ('L', 'R') and so in ('L', 'R'):
+                n += 1
+                if sx != so:
+                    nm = b.name_of(next(iter(targets))) or f'_{next(iter(targets))}'
+                    on = sorted(b.name_of(o) or f'_{o}' for o in others)
+                    bad.append((nm, sx, so, on))
+        loc = f'{b.file}:{b.line}'
+        if bad:
+            nm, sx, so, on = bad[0]
+            run.violation(rule, fn, 'side-hygiene', f'`{nm}`, which belongs to the {"left" if sx == "L" else "right"} operand, is updated from {on}, which belong(s) to the '
+                          f'{"left" if so == "L" else "right"} operand: the {"left" if sx == "L" else "right"} document is then read at offsets measured on the other one', loc)
+        else:
+            run.proved(rule, fn, 'side-hygiene', 'every update of a value that belongs to one operand uses quantities of the same operand', loc)
+    run.count('side_updates', n)
